@@ -516,7 +516,8 @@ DEADLINES = {
 }
 
 NAMESPACE = {
-    "projects": ["p1", "p2"], "topics": ["t1", "t2"], "subs": ["s1", "s2", "s3"],
+    # "p1"+"t1" = "p"+"1t1" and "p1"+"s1" = "p"+"1s1": names whose project ++ id collide must stay different keys
+    "projects": ["p1", "p2", "p"], "topics": ["t1", "t2", "1t1"], "subs": ["s1", "s2", "s3", "1s1"],
     "push_chance": (1, 4), "drain": False,
     "weights": {"ctopic": 10, "dtopic": 6, "gtopic": 5, "csub": 12, "dsub": 7, "gsub": 7, "lists": 10, "pub": 5, "pull": 4,
                 "ack": 2, "mod": 2, "stats": 3, "bad": 2, "adv": 1, "registry": 5},
